@@ -34,13 +34,44 @@ UNICODE_PANEL = list("0123456789.,;:-_*#+!?()[]{}<>/\\|'\"`~^&%$@=") + list("BJO
     ["А", "Е", "К", "Κ", "Α", "ß", "ﬁ", "ı", "Å", "é", "​",
      "﻿", "\u0000", "\u007f", "­", "Ａ", "\U0001d400", "①"]
 NON_STRINGS = ["None", "0", "1", "1.5", "True", "False", "bytes", "bytearray", "list", "tuple", "dict", "object", "set",
-               "list_empty", "nan"]
+               "list_empty", "nan", "inf", "np_nan", "np_inf32", "decimal_nan", "np_false", "str_method_object", "backend_sequence",
+               "letters_list", "complex"]
 
 
 def mk_nonstring(tag):
     return {"None": None, "0": 0, "1": 1, "1.5": 1.5, "True": True, "False": False, "bytes": b"ACDEF",
             "bytearray": bytearray(b"ACD"), "list": ["A", "C", "D"], "tuple": ("A", "C"), "dict": {"A": 1},
-            "object": object(), "set": {"A"}, "list_empty": [], "nan": float("nan")}[tag]
+            "object": object(), "set": {"A"}, "list_empty": [], "nan": float("nan")}.get(tag, _more_nonstrings(tag))
+
+
+class _Texty:
+    def __str__(self):
+        return "ACDEFGHIK"
+
+
+def _more_nonstrings(tag):
+    import decimal
+    import numpy
+    if tag == "inf":
+        return float("inf")
+    if tag == "np_nan":
+        return numpy.float64("nan")
+    if tag == "np_inf32":
+        return numpy.float32("inf")
+    if tag == "decimal_nan":
+        return decimal.Decimal("NaN")
+    if tag == "np_false":
+        return numpy.False_
+    if tag == "str_method_object":
+        return _Texty()
+    if tag == "backend_sequence":
+        from lcverif import sut
+        return sut.load()["Sequence"]("ACDEFGHIK")
+    if tag == "letters_list":
+        return list("ACDEF")
+    if tag == "complex":
+        return 1j
+    return None
 
 
 def cases(tier, seed):
@@ -70,6 +101,11 @@ def cases(tier, seed):
     for ch in UNICODE_PANEL:
         if len(ch) > 1:
             yield {"s": "ACD" + ch + "EFG"}
+    # valid words that happen to spell three-letter codes, file names, English words: they are sequences like any other
+    for w in ["ALA", "MET", "GLYGLY", "METSERLYS", "HISTHRVALALA", "TYRILEPHEASN", "SERMETLYS", "README", "LICENSE", "NEWS", "DATA",
+              "CHANGES", "MAKEFILE", "FALSE", "NAN", "INF", "NIL", "PASS", "SELF", "ASP", "LYSARG"]:
+        yield {"s": w, "cwd_files": True}
+        yield {"s": w.lower()}
     # text pasted with a FASTA header or other record decoration: not a sequence string, must be rejected
     for base in bases:
         for s in (">" + base + "\n" + base, ">sp|P1|X\n" + base, " >hdr\n" + base + "\n", ">\n" + base, ">" + base + "\r\n" + base + "\n",
@@ -121,6 +157,35 @@ def same(a, b):
     return a == b
 
 
+def judge_in_populated_cwd(case, rep, S):
+    """The current directory holds files whose NAMES are valid sequences: a sequence string is never a file name."""
+    import os
+    import shutil
+    import tempfile
+    s = case["s"]
+    d = tempfile.mkdtemp(prefix="lcverif_c13_")
+    old = os.getcwd()
+    try:
+        for name in (s, s.lower(), "README", "LICENSE", "NEWS"):
+            with open(os.path.join(d, name), "w") as fh:
+                fh.write(">some record\nMKVLAAGIVGLLLAQWSHETNDRKPFYC\n")
+        os.chdir(d)
+        rep.cnt("constructed_in_cwd_with_sequence_named_files")
+        try:
+            obj = S["SP"](s)
+            got = (obj.get_sequence(), obj.get_length(), len(obj), obj.get_FCR(), obj.get_molecular_weight())
+        except Exception as e:
+            rep.viol("valid_rejected", "%r is a valid word but was rejected with %s: %s (current directory holds a file of that name)" % (s, type(e).__name__, e))
+            return
+        ref = S["SP"]("".join(reversed(s)))        # same composition, not a file name
+        want = (s, len(s), len(s), ref.get_FCR(), ref.get_molecular_weight())
+        if got[:3] != want[:3] or not all(M.close(a, b) for a, b in zip(got[3:], want[3:])):
+            rep.viol("not_normalised", "SequenceParameters(%r) in a directory holding a file of that name gives %r, expected %r" % (s, got, want))
+    finally:
+        os.chdir(old)
+        shutil.rmtree(d, ignore_errors=True)
+
+
 def judge(case, rep, S):
     SP = S["SP"]
     if "ns" in case:
@@ -136,6 +201,8 @@ def judge(case, rep, S):
         return
     s = case["s"]
     rep.distinct(s)
+    if case.get("cwd_files"):
+        return judge_in_populated_cwd(case, rep, S)
     n = norm(s)
     valid = len(n) > 0 and all(c in M.AA for c in n)
     has_ws = any(c.isspace() for c in s)
